@@ -80,6 +80,7 @@ LO, HI = Fraction(10) ** -280, Fraction(10) ** 280
 BINOPS = {"add": operator.add, "sub": operator.sub, "mul": operator.mul, "div": operator.truediv, "mod": operator.mod}
 CMPOPS = {"eq": operator.eq, "ne": operator.ne, "lt": operator.lt, "le": operator.le, "gt": operator.gt, "ge": operator.ge}
 ADDITIVE = ("add", "sub", "mod")
+RNAMES = {"add": "__radd__", "sub": "__rsub__", "mul": "__rmul__", "div": "__rtruediv__", "mod": "__rmod__"}
 FRACS = [Fraction(1, 2), Fraction(1, 3), Fraction(2, 3), Fraction(-1, 2), Fraction(-1, 3), Fraction(3, 2)]
 
 
@@ -197,6 +198,17 @@ def ev(E, node, path="r"):
     a = ev(E, node["a"], path + ".a")
     if isinstance(a, Raised):
         return a
+    if k == "rbin":
+        # `b.__rop__(a)` called directly (a public method that claims to compute `a op b`); oracle only
+        b = ev(E, node["b"], path + ".b")
+        if isinstance(b, Raised):
+            return b
+        try:
+            r = getattr(b, RNAMES[node["op"]])(a)
+        except Exception as ex:  # noqa
+            r = Raised(ex)
+        oracle_bin(E, node["op"], a, b, r, path)
+        return r
     if k in ("bin", "pow"):
         b = ev(E, node["b"], path + ".b")
         if isinstance(b, Raised):
@@ -807,6 +819,12 @@ class Gen:
             if rng.random() < 0.12 and a["k"] == "leaf" and a["t"] == "val":
                 case["b"] = {"k": "leaf", "t": "val", "x": dict(a["x"])}
                 case["exact_ok"] = True
+            elif rng.random() < 0.12 and a["k"] == "leaf" and a["t"] == "val" and kr == "num":
+                case["b"] = {"k": "leaf", "t": "num", "v": a["x"]["v"], "py": "float"}
+                case["exact_ok"] = True
+            elif rng.random() < 0.12 and b["k"] == "leaf" and b["t"] == "val" and kl == "num":
+                case["e"] = {"k": "leaf", "t": "num", "v": b["x"]["v"], "py": "float"}
+                case["exact_ok"] = True
             return case
         return {"e": self.tree(depth)}
 
@@ -858,7 +876,28 @@ def table_cases(rng, E):
                                 if rep and kl == "val" and kr == "val" and same_sys and same_dim:
                                     c["b"] = {"k": "leaf", "t": "val", "x": dict(a["x"])}
                                     c["exact_ok"] = True
+                                # a plain number exactly equal to the stored value (it takes the quantity's units)
+                                if rep and same_sys and same_dim and (kl, kr) == ("val", "num"):
+                                    c["b"] = {"k": "leaf", "t": "num", "v": a["x"]["v"], "py": "float"}
+                                    c["exact_ok"] = True
+                                if rep and same_sys and same_dim and (kl, kr) == ("num", "val"):
+                                    c["e"] = {"k": "leaf", "t": "num", "v": b["x"]["v"], "py": "float"}
+                                    c["exact_ok"] = True
                                 out.append(c)
+    # the reflected methods called directly with a quantity argument (Python's dispatch never does that: the left
+    # quantity's forward method runs first), oracle only
+    for op in BINOPS:
+        for kl in ("val", "arr"):
+            for kr in ("val", "arr"):
+                for same_dim in (True, True, False):
+                    g.n = rng.randint(1, 3)
+                    d = rand_dim(rng)
+                    a = qty_leaf(rng, kl, d, g.n)
+                    h = g.hint_of(a)
+                    hs = g.scaled(h, op, False) if h else None
+                    b = qty_leaf(rng, kr, d if same_dim else other_dim(rng, d), g.n,
+                                 si_target=hs[0] if (hs and same_dim and op in ADDITIVE) else None)
+                    out.append({"e": {"k": "rbin", "op": op, "a": a, "b": b}})
     for op in ("neg", "abs", "inv"):
         for kl in kinds:
             for rep in range(4):
@@ -892,7 +931,7 @@ def has_quantity(node):
 def compare_model(ctx, case, got, r):
     """returns None when agreeing, 'skip:<why>' when the float policy says so, else a description"""
     if r is None:
-        return "skip:no-model"
+        return "skip:no-model" if case["e"]["k"] != "rbin" else "skip:oracle-only"
     if r.get("zerodiv"):
         return "skip:zero-divisor"
     lo, hi = rparse(r["lo"]), rparse(r["hi"])
@@ -951,17 +990,24 @@ def process(ctx, E, cases, label):
         for s in E.experr:
             ctx.count("expected_error_" + s)
         ctx.count("oracle_nodes", len(E.nodes))
-    res = []
+    res = [None] * len(cases)
+    idx = [i for i, c in enumerate(cases) if c["e"]["k"] != "rbin"]
     B = 1500
-    for i in range(0, len(cases), B):
-        res += ctx.model.run([model_op(c) for c in cases[i:i + B]])
+    for i in range(0, len(idx), B):
+        part = idx[i:i + B]
+        for j, r in zip(part, ctx.model.run([model_op(cases[j]) for j in part])):
+            res[j] = r
     for case, got, fs, sk, r in zip(cases, gots, finds, skips, res):
         nontriv = has_quantity(case["e"]) or ("b" in case and has_quantity(case["b"]))
         ctx.case(rstr(0) + repr(case), nontrivial=nontriv, sample={"op": "expr", "case": case, "impl": got})
         ctx.count(label)
         ctx.count("impl_error_" + got["error"] if "error" in got else "impl_" + got.get("t", "?"))
         for key, what, path, impl, expected in fs:
-            ctx.violation(key, what + " (node %s)" % path, {"case": case, "node": path}, impl=impl, expected=expected)
+            # the runner keeps the first 20 violations only: report each key at most twice so that a frequent
+            # (e.g. known) finding cannot crowd out a different one
+            ctx.count("oracle_fail_" + key)
+            if ctx.stats["oracle_fail_" + key] <= 2:
+                ctx.violation(key, what + " (node %s)" % path, {"case": case, "node": path}, impl=impl, expected=expected)
         why = compare_model(ctx, case, got, r)
         if why is None:
             ctx.count("model_agree")
@@ -976,8 +1022,13 @@ def run(ctx):
     rng = ctx.rng
     ctx.notes.append("array == / != : UnitArray defines no comparison; Python falls back to object identity. Not claimed by the "
                      "property check (only: does not raise, returns a bool).")
-    ctx.notes.append("cmp_si is proved for scalar pairings only (cmp_si_partial): for a UnitArray operand the ordering methods of "
-                     "UnitValue return a TypeError instance (known finding cmp-array-returns-exception-object; negation witness in Props/C05.lean).")
+    ctx.notes.append("cmp_si_partial is proved for scalar pairings; for a UnitArray operand of an ordering operator the model follows the "
+                     "regenerated source: if the last branch of UnitValue.__gt__/__ge__/__lt__/__le__ returns its TypeError instance (finding "
+                     "cmp-array-returns-exception-object, fixed in the repository by 8d48d0b) the oracle reports it, if it raises nothing is reported.")
+    ctx.notes.append("eval_homomorphism takes the scalar ** case as hypothesis PowHom (reduced to UnitValue ** number by powHom_of_scalar; "
+                     "dimension rule proved: pow_defined_iff); every other operator, pairing and the tree induction are proved outright.")
+    ctx.notes.append("the reflected methods are also called directly with a quantity argument (b.__rsub__(a) etc., never done by Python's "
+                     "dispatch): oracle only, no model correspondence.")
     ctx.notes.append("UnitArray ** n raises NotImplementedError always (documented); the statement's ** is on scalar quantities.")
     # 1. exhaustive table
     process(ctx, E, table_cases(rng, E), "table_cases")
